@@ -77,6 +77,9 @@ Layouts ==
     \cup { [kind |-> "one_file", a |-> a, b |-> b, parts |-> 1] : a \in {-1, 5}, b \in {0, 3} }
     \cup { [kind |-> "files", a |-> a, b |-> 1, parts |-> k] : a \in {1, -1, 5}, k \in {2, 3} }
     \cup { [kind |-> "split_trials", a |-> a, b |-> 2, parts |-> 2] : a \in {1, -1} }
+    \* the same logical error rates, but a share of the failed trials (growing
+    \* with the distance) ended outside the code space
+    \cup { [kind |-> "out_of_codespace", a |-> a, b |-> 0, parts |-> 1] : a \in {1, -1} }
 
 \* -------------------------------------------------- get_fit_status -------
 \* Entry values are in 1e-6; NaN is a marker.  On the grid used here two
